@@ -25,6 +25,9 @@ class Atoms:
             if "deref_val" in op:
                 v = op["deref_val"]
                 return {("const", int(v))}
+            if "deref_enum" in op:
+                de = op["deref_enum"]
+                return {("enumconst", de.get("adt") if isinstance(de, dict) else None, de.get("variant") if isinstance(de, dict) else str(de))}
             if "named" in op:
                 return {("named", op["named"])}
             if "str" in op:
